@@ -92,12 +92,15 @@ PROPS["C09"] = {
 }
 PROPS["C10"] = {
     "lean": ["SioVerif.Props.C10"],
-    "components": ["siocodec"],
+    "components": ["siocodec", "timed:TestMalformed"],
     "facts": [],
     "rule": "every byte string of length <=4 (thorough: <=5) over the 18-symbol alphabet 0256 7-/,\"\\[]{}:a1t fed to the real Add under recover, every finished packet "
             "decoded against 6 handler signature families (typed Binary, map[string]any, any, struct, no args, string+Binary); grammar-aware mutations of valid binary "
             "packets (placeholder numbers incl. negative/2^31/2^63/1e300/1.5, wrong attachment counts, truncated JSON); random multi-packet frame sequences with "
-            "missing/extra attachments and maxAttachments. Non-trivial = multi-frame sequence or placeholder mutation; distinct by request line.",
+            "missing/extra attachments and maxAttachments. System half: a raw protocol peer sends 32 hand-written and 40 (thorough 1500) generated malformed frame scripts "
+            "(placeholder numbers, attachment counts, truncations, wrong frame kinds; handlers of every signature family) to a real server over polling and WebSocket while a "
+            "well-behaved client is connected: the process survives (a crash of the rig is reported with the script as replay), the other connection still gets its "
+            "acknowledgements, a later connection is served. Non-trivial = multi-frame sequence or placeholder mutation / every script; distinct by request line / script.",
     "trusted_base": EXT + ["encoding/json answers are oracle inputs of the model, so the theorems quantify over all of them"],
     "assumptions": ["'the error is reported and other connections keep working' is exercised by the system rig (component siodispatch) when present in this check's component list"],
     "level_text": "Lean 4 theorems over the decoder model: header parsing, reassembly and placeholder substitution never produce the panic outcome for any bytes and any "
